@@ -135,7 +135,7 @@ P_ResultsAreFuncResults     == [][IsCall => ResultsAreFuncResults(sig, opt, func
 P_NilFuncContract           == [][IsCall => NilFuncContract(sig, opt, func, log, last')]_vars
 P_ResetEmptiesOnlyItsTarget == [][Stepped /\ last'.op \in {"resetm", "resetall"} =>
                                     ResetEmptiesOnlyItsTarget(sig, opt, func, log, last')]_vars
-P_StepOK                    == [][Stepped => StepOK(sig, opt, func, log, last') /\ func' = FuncsAfter(func, last')
+P_StepOK                    == [][Stepped => StepOK(sig, opt, func, log, ByLogs(sig), last') /\ func' = FuncsAfter(func, last')
                                              /\ log' = last'.logs]_vars
 
 TypeOK == /\ \A m \in Methods : func[m] \in FuncIds \cup {Nil}
